@@ -265,6 +265,19 @@ def run(ctx):
         r = fn.reachable(fn.B[nb]['t']['t'], avoid=seeks | {nb})
         bad = [b for b in rdx if b in r]
         ctx.ob('C13-D6', F, 'read of a range', 'preceded on every path of the iteration by seek(Start(range.start))', not bad and bool(seeks), detail='reads reachable without the seek: %s' % bad, site=loc(fn.B[nb]['t'].get('span')))
+    # D7: the BMFF offset markers are consumed in ascending order by the range-splitting loops: every iteration over that vector is preceded by a sort
+    def okey(op):
+        return frozenset(fn.origins(op))
+    mk = [okey(t['args'][0]) for bi, t in calls if re.search(r'Vec::<T, A>::push$|Vec::push$', t['fd']) and 'HashRange::bmff_offset(' in T.call_term(fn, bi) and t['args']]
+    mk = [k for k in mk if k]
+    if ctx.ob('C13-D7', F, 'vector of BMFF offset markers', 'identified (pushes of HashRange::bmff_offset values)', bool(mk), nontrivial=False):
+        K = mk[0]
+        sorts = [bi for bi, t in calls if re.search(r'::(sort|sort_unstable|sort_by|sort_by_key)$', t['fd']) and t['args'] and okey(t['args'][0]) & K]
+        iters = [bi for bi, t in calls if re.search(r'IntoIterator::into_iter$|::iter$', t['fd']) and t['args'] and okey(t['args'][0]) & K]
+        ctx.ob('C13-D7', F, 'iterations over the BMFF offset markers', 'exist (range splitting)', len(iters) >= 1, detail=str(len(iters)), nontrivial=False)
+        for ib in iters:
+            ok = ib not in fn.reachable(0, avoid=set(sorts))
+            ctx.ob('C13-D7', F, 'iteration over the BMFF offset markers', 'preceded on every path by a sort of that vector (markers are supplied in any order)', ok, site=loc(fn.B[ib]['t'].get('span')), detail='%d sort sites' % len(sorts))
     # read_exact errors leave with Err
     for bi, t in calls:
         if t['fd'].endswith('Read::read_exact') or t['fd'].endswith('Seek::seek'):
